@@ -323,6 +323,22 @@ pub fn gen_world(seed: u64) -> C13World {
                 }
             }
         }
+        if r.chance(1, 4) {
+            // one data file read as text AND as bytes by the same module, in either order (same spelling)
+            let name = if r.chance(1, 2) { "t.txt" } else { "u.bin" };
+            let sp = spell(r, name, dir, &jdirs, &copies);
+            let mut kinds = vec![DepKind::ImportStr, DepKind::ImportBin];
+            if r.chance(1, 2) {
+                kinds.reverse();
+            }
+            for kind in kinds {
+                let at = r.usize_below(deps.len() + 1);
+                deps.insert(at, Dep { field: String::new(), kind, spelling: sp.clone(), line: 0, col: 0 });
+            }
+            for (k, d) in deps.iter_mut().enumerate() {
+                d.field = format!("d{k}");
+            }
+        }
         if is_main && !alias_targets.is_empty() && r.chance(1, 2) {
             // the same file demanded through a symlink to it AND by a direct spelling, in either order
             let (alias_sp, target) = r.pick(&alias_targets).clone();
